@@ -24,6 +24,7 @@ def run(ctx):
     n_sync = 500 if quick else 10000
     n_wp = 200 if quick else 3000
     n_e2e = 2 if quick else 12
+    n_queue = 800 if quick else 20000
 
     notes = []
 
@@ -43,14 +44,19 @@ def run(ctx):
         ctx.stage("wp" + suffix, "lib/dispatchcloud/worker", "worker", ["C14/zz_verif_c14wp_test.go"], "TestVerifC14WP$",
                   n_wp * mult, wp_hdr, seed_offset=off, shard=25, env={"VERIF_STAGE": "wp" + suffix, "VERIF_WPMODE": "c14"},
                   replace=_replace())
+        # container.Queue: Update with a local Lock/Unlock/Cancel arriving before/during/after the poll
+        q_hdr = HDR.format(imports="model.C16_runq model.C14_queue model.C14_queue_run")
+        ctx.stage("queue" + suffix, "lib/dispatchcloud/container", "container", ["C14/zz_verif_c14queue_test.go"],
+                  "TestVerifC14Queue$", n_queue * mult, q_hdr, seed_offset=off, shard=400, env={"VERIF_STAGE": "queue" + suffix},
+                  replace=_replace())
         # (iii) end-to-end exploration: real dispatcher against the stub cloud, event log judged in Coq
         if not suffix:
             run_e2e(ctx, n_e2e, "c14", not quick, 0, _replace(), notes)
-    return standard(ctx, "C14", ["model/C16_runq_run.vo", "model/C14_sync_run.vo", "model/C14_wp_run.vo", "model/C14_e2e_run.vo"],
+    return standard(ctx, "C14", ["model/C16_runq_run.vo", "model/C14_sync_run.vo", "model/C14_wp_run.vo", "model/C14_e2e_run.vo", "model/C14_queue_run.vo"],
                     stages,
                     rule="runq/sync: queue snapshots of 0-16 entries (all states, tied/zero/negative priorities) x scripted pool answers "
                          "x process situations (absent, alive, exited before/after/at the last queue update) x latch x unknown-workers, "
-                         "exhaustive for one entry; wp: 15-60 operations (sync listings, create, whole and split probes, start, start "
+                         "exhaustive for one entry; queue: 1-6 API records, changes between polls, a local Lock/Unlock/Cancel or a foreign state change at 5 positions relative to the poll; wp: 15-60 operations (sync listings, create, whole and split probes, start, start "
                          "command returning, kill, SIGTERM success, give-up, forget, idle behaviour, shutdown, sweep, restart) on 1-2 "
                          "instance types with left-over instances/processes/tags; e2e: 40-90 containers (200-500 in thorough), crashing/"
                          "broken/slow VMs, destroy failures, rate limit, external cancels, hold/drain, one restart. distinct by hash of "
